@@ -1,23 +1,59 @@
-(* C01 — custody: the module holds the staked total plus the pending unbondings. *)
-From Coq Require Import ZArith List Bool.
+(* C01 — custody: the module holds the staked total plus the pending unbondings.
+   Main theorem: for every alliance denom other than the staking denom, in EVERY state
+   reachable through ANY sequence of delegations, undelegations, redelegations, claims,
+   slashes, governance messages, block boundaries (end-of-block payouts, take rate, decay,
+   rebalancing) and environment events, custody is at least the staked total plus all
+   pending unbonding balances; and a margin once present (unsolicited transfers) is never
+   eaten into.  The induction goes through every keeper function of the model (Hoare logic,
+   Proofs/Custody.v), unbounded in history length, participants and amounts.
+   Admissibility of a step (adm) is what is assumed, all of it stated on observables:
+     - environment: third parties and genesis do not lower the slack; recorded distribution
+       withdrawals are non-negative; the custody module account signs no delegation;
+     - a slash callback that returns an ERROR (its partial writes stay, C08) is excluded;
+     - an asset is deleted with a non-negative staked total (C03 checks non-negativity).
+   The other direction ("exceeding only by unsolicited coins") is FALSE of the code: rewards
+   withdrawn for a validator without delegator shares stay in custody (F-C01-1, see C11). *)
+From Coq Require Import ZArith List Bool Lia.
 From Alliance Require Import Num KMap Types Monad Model Step Spec Hoare.
 From Alliance.Proofs Require Import Custody.
 Import ListNotations.
 Open Scope Z_scope.
 
-(* custody - staked total - pending unbondings of a denom *)
+(* custody - staked total - pending unbondings of a denom: the quantity check_C01 evaluates *)
 Theorem C01_slack_is_the_spec_quantity : forall d s, sl d s = slack s d.
 Proof. exact sl_is_slack. Qed.
 Print Assumptions C01_slack_is_the_spec_quantity.
 
-(* JC d c s: the structural invariants (sorted maps, assets keyed by their denom, recorded
-   withdrawals non-negative) hold and custody of d exceeds what is owed by at least c *)
-Theorem C01_delegation_keeps_custody_covering_partial : forall d, d <> BOND_DENOM ->
-  forall del v vi dn amt c, del <> ACC_ALLIANCE -> 0 < amt ->
-  hoare (JC d c) (k_delegate del v vi dn amt) (fun _ => JC d c) (fun _ => True).
-Proof. exact jc_k_delegate. Qed.
-Print Assumptions C01_delegation_keeps_custody_covering_partial.
+Theorem C01_custody_never_short : forall d, d <> BOND_DENOM ->
+  forall h, adm_run d init_state h -> 0 <= slack (run init_state h) d.
+Proof. intros d Hd h. exact (custody_never_short d Hd h). Qed.
+Print Assumptions C01_custody_never_short.
 
-Theorem C01_claim_keeps_custody_covering_partial : forall d del v vi dn c, del <> ACC_ALLIANCE -> inv (JC d c) (claim_delegation_rewards del v vi dn).
-Proof. exact jc_claim_delegation_rewards. Qed.
-Print Assumptions C01_claim_keeps_custody_covering_partial.
+Theorem C01_margin_is_kept : forall d, d <> BOND_DENOM ->
+  forall c h s, Inv s -> c <= slack s d -> adm_run d s h -> c <= slack (run s h) d.
+Proof. intros d Hd c h s. exact (custody_margin_kept d Hd c h s). Qed.
+Print Assumptions C01_margin_is_kept.
+
+(* one step, any operation *)
+Theorem C01_step : forall d, d <> BOND_DENOM -> forall c s o, JC d c s -> adm d s o -> JC d c (fst (step s o)).
+Proof. intros d Hd c s o. exact (step_JC d Hd c s o). Qed.
+Print Assumptions C01_step.
+
+(* non-vacuity: a history with a delegation, an undelegation, a slash while unbonding, a take-rate
+   deduction and the payout satisfies the admissibility conditions, and custody is exactly what is owed *)
+Definition C01_example : list Op :=
+  [EStaking [(10, mkSVal 3 1000000 (1000000 * ONE))] []; EUnbondingTime 100; EParams 0 50 ZERO_TIME;
+   EGenesisAsset (mkAsset 1 ONE 0 (5 * ONE) (ONE / 2) 0 0 0 ONE 0 0 true); EBank [(100, 1, 1000)] [];
+   OBeginBlock 10 1; ODelegate 100 10 1 500; OUndelegate 100 10 1 200; OEndBlock;
+   OBeginBlock 70 2; OHookSlash 10 (ONE / 10); OEndBlock;
+   OBeginBlock 130 3; OEndBlock; OBeginBlock 131 4; OEndBlock].
+Example C01_nonvacuous : adm_run 1 init_state C01_example /\
+  map (fun x => (snd (fst x), slack (snd x) 1, staked_total (snd x) 1, unbonding_sum (snd x) 1, bal (snd x) 100 1)) (skipn 6 (run_trace init_state C01_example))
+  = [(0, 0, 500, 0, 500); (0, 0, 300, 200, 500); (0, 0, 300, 200, 500);
+     (0, 0, 300, 200, 500); (0, 0, 300, 180, 500); (0, 0, 150, 180, 500);
+     (0, 0, 150, 180, 500); (0, 0, 75, 0, 680); (0, 0, 75, 0, 680); (0, 0, 75, 0, 680)].
+Proof.
+  split; [|vm_compute; reflexivity].
+  unfold C01_example. cbn [adm_run]. repeat split; cbv [adm]; try exact I; try (unfold ACC_ALLIANCE; lia); try (vm_compute; discriminate);
+    try (vm_compute; intro; discriminate); try constructor.
+Qed.
